@@ -33,11 +33,11 @@ def angle(u, v):
 
 def gen_antenna(rng, families=None, max_pulses=25, ground=None, len_jitter=(0.7, 1.4), rad_jitter=(0.5, 1.5)):
     """returns dict(f, ground, wires=[dict(nseg,p0,p1,r)], family)"""
-    fams = families or ['dipole', 'vee', 'ell', 'tee', 'star', 'monopole', 'monopole_top', 'array', 'gp', 'loop']
+    fams = families or ['dipole', 'vee', 'ell', 'tee', 'star', 'monopole', 'monopole_top', 'array', 'gp', 'loop', 'monopole_taper']
     fam = rng.choice(fams)
     if ground is None:
-        ground = fam in ('monopole', 'monopole_top', 'gp') or (fam in ('dipole', 'vee', 'array') and rng.random() < 0.25)
-    if fam in ('monopole', 'monopole_top', 'gp'):
+        ground = fam in ('monopole', 'monopole_top', 'gp', 'monopole_taper') or (fam in ('dipole', 'vee', 'array') and rng.random() < 0.25)
+    if fam in ('monopole', 'monopole_top', 'gp', 'monopole_taper'):
         ground = True if fam != 'gp' else False
     f = 10 ** rng.uniform(0.3, 2.2)           # 2 .. 160 MHz
     lam = C / f
@@ -93,6 +93,22 @@ def gen_antenna(rng, families=None, max_pulses=25, ground=None, len_jitter=(0.7,
             W([x, y, 0.0], top, n)
         else:
             W(top, [x, y, 0.0], n)
+    elif fam == 'monopole_taper':
+        # grounded wire with tapered segmentation (from the grounded end, from the far end, from both ends), with and
+        # without a maximum segment length (a run of equal segments next to shorter ones), grounded at either end
+        n = rng.randint(5, 9)
+        x, y = rng.uniform(-1, 1) * lam, rng.uniform(-1, 1) * lam
+        Lw = seg * n
+        tilt = rng.choice([0.0, 0.0, rng.uniform(0.05, 0.3)])
+        top = np.array([x + tilt * Lw, y, Lw])
+        st = rng.choice([1, 2, 3])
+        tmax = rng.choice([None, Lw / n * rng.uniform(1.05, 1.6)])
+        w = dict(nseg=n, r=float(min(rad, seg / 40)), segtype=st, tmax=tmax)
+        if rng.random() < 0.5:
+            w.update(p0=[float(x), float(y), 0.0], p1=[float(v) for v in top])
+        else:
+            w.update(p0=[float(v) for v in top], p1=[float(x), float(y), 0.0])
+        wires.append(w)
     elif fam == 'monopole_top':
         n = rng.randint(4, 8)
         x, y = rng.uniform(-1, 1) * lam, rng.uniform(-1, 1) * lam
@@ -199,7 +215,7 @@ def gen_curved(rng):
 # by the PRNG stream, so that replays rebuild the same history.  The properties quantify over models, not
 # over fresh objects: whatever holds for a fresh object must hold for step k of a sweep (C14).
 WARM = dict(on=True, built=0, warmed=0)
-WARM_FACTORS = [0.5, 0.83, 1.21, 2.0]
+WARM_FACTORS = [0.5, 1.0, 0.83, 1.21, 1.0, 2.0]     # 1.0: solved before at the *same* frequency (no setter call in between)
 _WARM_CLS = {}
 
 
@@ -214,7 +230,8 @@ def _warm_class():
                 if fac:
                     from mininec.mininec import Angle
                     f0 = self.f
-                    self.f = f0 * fac
+                    if fac != 1.0:
+                        self.f = f0 * fac
                     Mininec.compute(self)
                     if self.sources and abs(self.power) > 0:
                         try:
@@ -223,7 +240,8 @@ def _warm_class():
                             self.compute_near_field([c, 0.3 * c, 0.5 * c], [1.0, 1.0, 1.0], [1, 1, 1])
                         except Exception:
                             pass
-                    self.f = f0
+                    if fac != 1.0:
+                        self.f = f0
                 return Mininec.compute(self)
         _WARM_CLS[Mininec] = WarmMininec
     return _WARM_CLS[Mininec]
@@ -262,7 +280,16 @@ def build(ant, media=None):
     from mininec.mininec import Mininec, Wire, ideal_ground
     if 'objs' in ant:
         return build_objs(ant)
-    ws = [Wire(w['nseg'], *w['p0'], *w['p1'], w['r']) for w in ant['wires']]
+    ws = []
+    for w in ant['wires']:
+        o = Wire(w['nseg'], *w['p0'], *w['p1'], w['r'])
+        if w.get('segtype'):
+            o.segtype = w['segtype']
+            if w.get('tmax') is not None:
+                o.taper_max = w['tmax']
+            if w.get('tmin') is not None:
+                o.taper_min = w['tmin']
+        ws.append(o)
     if media is None:
         media = [ideal_ground] if ant['ground'] else None
     return _mk(ant, ant['f'], ws, media=media)
